@@ -16,6 +16,13 @@ mod p_text;
 mod p_repo;
 mod p_tables;
 mod p_idindex;
+#[cfg(feature = "eol")]
+mod p_eol;
+// lib/src/eol.rs (compiled by path in p_eol) imports these two through `crate::`: give it the real jj_lib types
+#[cfg(feature = "eol")]
+mod config { #[allow(unused_imports)] pub use jj_lib::config::ConfigGetError; }
+#[cfg(feature = "eol")]
+mod settings { #[allow(unused_imports)] pub use jj_lib::settings::UserSettings; }
 
 fn main() {
     std::panic::set_hook(Box::new(|_| {}));
@@ -55,6 +62,8 @@ fn main() {
         }
         #[cfg(feature = "repo")]
         "C18" | "C10" | "C19" | "C11" => p_repo::run(pid, func, replay, seed),
+        #[cfg(feature = "eol")]
+        "C29" => p_eol::run(pid, func, replay, seed),
         "C21" => p_tables::run(pid, func, replay, seed),
         _ => util::none(&format!("no executable contract for {pid} in this build (features: git={}, cli={}, repo={})", cfg!(feature = "git"), cfg!(feature = "cli"), cfg!(feature = "repo"))),
     };
